@@ -234,7 +234,7 @@ def schedule_variants(profile, n, seed, singles, pairs, tag):
         pars = t.get('par') or []
         # indices of build steps that contain a par statement, in execution order
         par_steps = [ix for ix, st in enumerate(sc['steps']) if st['op'] == 'build'
-                     and any(x.get('s') == 'par' for x in st.get('root', []))]
+                     and (st.get('straggler') or any(x.get('s') == 'par' for x in st.get('root', [])))]
         for pi, info in enumerate(pars[:len(par_steps)]):
             pts = [(th, k) for th, y in enumerate(info['yields']) for k in range(1, y + 1)]
             if not pts:
@@ -245,15 +245,22 @@ def schedule_variants(profile, n, seed, singles, pairs, tag):
                 a, b = rnd.choice(pts), rnd.choice(pts)
                 sets.append([a, b])
                 sets.append([a, b, rnd.choice(pts)])
+            if sc['steps'][par_steps[pi]].get('straggler'):
+                # preemptions of the owner (thread 0) only, counted from the hand-off on
+                sets = [[p] for p in pts if p[0] == 0]
+                if singles:
+                    sets = rnd.sample(sets, min(singles * 2, len(sets)))
             for si, ps in enumerate(sets):
                 v = copy.deepcopy(sc)
+                if v['steps'][par_steps[pi]].get('straggler'):
+                    v['steps'][par_steps[pi]]['straggler']['preempt'] = [list(p) for p in ps]
                 for x in v['steps'][par_steps[pi]]['root']:
                     if x.get('s') == 'par':
                         x['preempt'] = [list(p) for p in ps]
                 v['id'] = '%s@p%d.%d' % (sc['id'], pi, si)
                 out.append(v)
             # random-priority schedules
-            for ri in range(2 if singles else 6):
+            for ri in range(0 if sc['steps'][par_steps[pi]].get('straggler') else (2 if singles else 6)):
                 v = copy.deepcopy(sc)
                 for x in v['steps'][par_steps[pi]]['root']:
                     if x.get('s') == 'par':
